@@ -384,7 +384,7 @@ func stringRegexpTransform(input any, r v1.StringTransformRegexp) (string, error
 
 	// Return the entire match (group zero) by default.
 	g := ptr.Deref(r.Group, 0)
-	if len(groups) == 0 || g >= len(groups) {
+	if len(groups) == 0 || g < 0 || g >= len(groups) {
 		return "", errors.Errorf(errStringTransformTypeRegexpNoMatch, r.Match, g)
 	}
 
